@@ -672,3 +672,44 @@ V("maxregret-table-transposed", "break", ["C16"], H + "max_regret_var_heuristic.
 # --------------------------------------------------------------------------------------------- loop variants
 V("lexleq-loop-no-step", "break", ["C04"], P + "lexicographic_leq_propagator.py", None, None, "scan loop loses its step", "lexicographic",
   edits=[{"old": "        i += 1\n", "new": "        pass\n", "occurrence": 0}])
+
+# ------------------------------------------------------------------------------------- entailment guards of the sibling families
+V("element-iv-entailed-on-single-value", "break", ["C07"], P + "element_iv_propagator.py",
+  "    if i[MIN] == i[MAX]:\n        return PROP_ENTAILMENT", "    if i[MIN] == i[MAX] or v_min == v_max:\n        return PROP_ENTAILMENT",
+  "'entailed' as soon as one supported value is left although the index is not fixed", "compute_domains_element_iv")
+V("element-lic-entailed-early", "break", ["C07"], P + "element_lic_propagator.py",
+  "    if i[MIN] == i[MAX]:\n        l[i[MIN]] = c\n        return PROP_ENTAILMENT", "    if i[MAX] - i[MIN] <= 1:\n        l[i[MIN]] = c\n        return PROP_ENTAILMENT",
+  "'entailed' with two candidate indices left", "compute_domains_element_lic")
+V("relation-entailed-on-full-box", "break", ["C07"], P + "relation_propagator.py",
+  "    if len(tuples) == 1:\n", "    if len(tuples) == (domains[0, MAX] - domains[0, MIN] + 1) * (domains[1, MAX] - domains[1, MIN] + 1):\n",
+  "'entailed' when the number of rows equals the size of the box (rows may repeat)", "compute_domains_relation")
+V("count-eq-entailed-early", "break", ["C07"], P + "count_eq_propagator.py",
+  "    if count_min == count_max:\n        return PROP_ENTAILMENT", "    if count_min == count_max or counter[MIN] == counter[MAX]:\n        return PROP_ENTAILMENT",
+  "'entailed' as soon as the counter is fixed although some variables are undecided", "compute_domains_count_eq")
+V("exactly-eq-entailed-early", "break", ["C07"], P + "exactly_eq_propagator.py",
+  "    if count_min == 0 and count_max == 0:\n        return PROP_ENTAILMENT", "    if count_min == 0:\n        return PROP_ENTAILMENT",
+  "'entailed' when the required number is reached although other variables may still take the value", "compute_domains_exactly_eq")
+V("element-iv-guard-rewritten-neutral", "neutral", ["C07", "C01"], P + "element_iv_propagator.py",
+  "    if i[MIN] == i[MAX]:\n        return PROP_ENTAILMENT", "    if not i[MIN] < i[MAX]:\n        return PROP_ENTAILMENT",
+  "same guard written as `not MIN < MAX` (MAX >= MIN is established by the failure test above)")
+V("relation-guard-rewritten-neutral", "neutral", ["C07", "C01"], P + "relation_propagator.py",
+  "    if len(tuples) == 1:\n", "    if len(tuples) < 2:\n", "same guard written as `< 2`")
+V("count-eq-guard-rewritten-neutral", "neutral", ["C07", "C01"], P + "count_eq_propagator.py",
+  "    if count_min == count_max:\n        return PROP_ENTAILMENT", "    if count_max - count_min == 0:\n        return PROP_ENTAILMENT", "same guard written as a difference")
+V("element-liv-locals-renamed-neutral", "neutral", ["C07"], P + "element_liv_propagator.py", None, None, "index and value rows bound to other names",
+  within="def compute_domains_element_liv", edits=[{"old": "    i = domains[-2]\n", "new": "    idx_var = domains[-2]\n    i = idx_var\n"}])
+V("affine-leq-vectorised-int32", "break", ["C01", "C07"], P + "affine_leq_propagator.py",
+  """    domain_sum_min = domain_sum_max = parameters[-1]
+    for i, c in enumerate(parameters[:-1]):
+        if c > 0:
+            domain_sum_min -= c * domains[i, MAX]
+            domain_sum_max -= c * domains[i, MIN]
+        else:
+            domain_sum_min -= c * domains[i, MIN]
+            domain_sum_max -= c * domains[i, MAX]
+    if domain_sum_min >= 0:""", """    coefficients = parameters[:-1]
+    terms_at_min = coefficients * domains[:, MIN]
+    terms_at_max = coefficients * domains[:, MAX]
+    domain_sum_min = parameters[-1] - np.sum(np.maximum(terms_at_min, terms_at_max))
+    domain_sum_max = parameters[-1] - np.sum(np.minimum(terms_at_min, terms_at_max))
+    if domain_sum_min >= 0:""", "bound sums vectorised on 32-bit arrays: products wrap at 2**31", "compute_domains_affine_leq", expect_rule="R-VECTOR-WIDTH")
